@@ -281,6 +281,8 @@ class ExprMixin:
             f = self.field_fact(v)
             if f is not None:
                 return self.noneness(f)
+        if v.kind == "call" and v.args[0] in ("popitem", "items", "keys", "values", "copy", "encode", "decode", "hexdigest") and v.args[1] is not None:
+            return False  # these container / string methods never return None
         if v.kind == "phi":
             ts = {self.noneness(x) for x in v.args}
             return ts.pop() if len(ts) == 1 else None
@@ -494,11 +496,43 @@ class ExprMixin:
         self.frames = [fr]
         self._force_oid = oid
         try:
+            self._bind_single_assigned_locals(func, fr, expr, {scratch.id}, 0)
             v, _ = self.ev(expr, {scratch.id})
         finally:
             self._force_oid = None
             self.exc_stack, self.cur_stmt, self.frames, self.counts = saved
         return v
+
+    def _bind_single_assigned_locals(self, func, fr, expr, preds, depth):
+        """Names the initialiser reads that are plain locals of the constructor assigned exactly once
+        (`cls = type(self)` hoisted out of the expression) are evaluated from their defining expression."""
+        if depth > 4:
+            return
+        params = {a.arg for a in func.node.args.args + func.node.args.kwonlyargs + func.node.args.posonlyargs}
+        for n in ast.walk(expr):
+            if not (isinstance(n, ast.Name) and isinstance(n.ctx, ast.Load)) or n.id in fr.env or n.id in params:
+                continue
+            defs = []
+            for st in ast.walk(func.node):
+                if isinstance(st, ast.Assign):
+                    for t in st.targets:
+                        for x in ast.walk(t):
+                            if isinstance(x, ast.Name) and x.id == n.id:
+                                defs.append(st if (isinstance(t, ast.Name) and len(st.targets) == 1) else None)
+                elif isinstance(st, (ast.AugAssign, ast.AnnAssign, ast.For, ast.With, ast.NamedExpr, ast.comprehension)):
+                    tgt = getattr(st, "target", None)
+                    for x in ast.walk(tgt) if tgt is not None else ():
+                        if isinstance(x, ast.Name) and x.id == n.id:
+                            defs.append(None)
+                    if isinstance(st, ast.With):
+                        for it in st.items:
+                            for x in ast.walk(it.optional_vars) if it.optional_vars is not None else ():
+                                if isinstance(x, ast.Name) and x.id == n.id:
+                                    defs.append(None)
+            if len(defs) == 1 and defs[0] is not None:
+                self._bind_single_assigned_locals(func, fr, defs[0].value, preds, depth + 1)
+                val, _ = self.ev(defs[0].value, preds)
+                fr.env[n.id] = val
 
     def class_attr(self, clsval, name, preds, inst=None):
         """Attribute looked up on the class(es); returns (val, preds)."""
@@ -926,7 +960,11 @@ class ExprMixin:
                 return Val("lock", name, idx), o
             # fields of an entry (constant key on an entry dict) are created together
             # by _initialize_data_in_buffer: reading one does not raise
-            entry_field = base.kind == "sub" and base.args[0].kind == "cattr" and idx.kind == "const" and isinstance(idx.args[0], str)
+            b0 = base
+            if b0.kind == "phi":
+                b0 = next((x for x in b0.args if x.kind in ("sub", "call")), b0)
+            entry_like = (b0.kind == "sub" and b0.args[0].kind == "cattr") or (b0.kind == "call" and b0.args[0] in ("get", "pop", "setdefault") and b0.args[1] is not None and b0.args[1].kind == "cattr")
+            entry_field = entry_like and idx.kind == "const" and isinstance(idx.args[0], str)
             o = self.node("cs_read", preds, may_raise=not entry_field, exc=("KeyError",), name=name, op="getitem", cls=ca.args[0], target=base, index=idx)
             return Val("sub", base, idx), o
         if k in ("param", "kwargs", "const"):
